@@ -58,7 +58,7 @@ def showObj (o : Obj) : String :=
 def loadReply (bytes : List Char) (ids : List Nat) : String :=
   match scan bytes with
   | .ok (es, _) =>
-    let fuel := 2 * es.length + 4
+    let fuel := es.length + 2
     let rec go (c : Cache) (l : List Nat) (acc : List String) : List String × Option Cache :=
       match l with
       | [] => (acc.reverse, some c)
